@@ -430,6 +430,7 @@ def slice_index(I, w, ci, args):
 MODELS = {
     'core::option::Option::take': option_take,
     'core::option::Option::as_mut': option_as_mut,
+    'core::option::Option::as_ref': option_as_mut,
     'core::option::Option::map': option_map,
     'core::option::Option::unwrap_or': option_unwrap_or,
     'core::option::Option::or': option_or,
@@ -469,6 +470,16 @@ MODELS = {
     'core::ops::index::Index::index': slice_index,
     'core::ops::index::IndexMut::index_mut': slice_index,
 }
+
+
+def into_iter(I, w, ci, args):
+    # `impl<I: Iterator> IntoIterator for I`: an iterator converts into itself
+    if ci.nresolved == '<I as core::iter::traits::collect::IntoIterator>::into_iter':
+        return [(w, args[0])]
+    return None
+
+
+MODELS['core::iter::traits::collect::IntoIterator::into_iter'] = into_iter
 
 
 def _clone(I, w, ci, args):
